@@ -59,12 +59,56 @@ def DiffNames (nodes base : List Node) (d : PageDiff) : Prop :=
 def DiffOK (ps : PageSet Node) (sp : StackPage Node) : Prop :=
   ∃ base, BaseOf ps sp.pageId base ∧ DiffNames H sp.page.nodes base sp.diff
 
+/-- accessors of an output page (updated or reconstructed) -/
+def PageOut.pageId : PageOut Node → PageId
+  | .updated P _ _ _ => P
+  | .reconstructed P _ _ _ => P
+
+def PageOut.page : PageOut Node → Page Node
+  | .updated _ pg _ _ => pg
+  | .reconstructed _ pg _ _ => pg
+
+def PageOut.diff : PageOut Node → PageDiff
+  | .updated _ _ d _ => d
+  | .reconstructed _ _ _ d => d
+
+/-- the children counter a reconstructed page is handed out with (`0` for an updated page) -/
+def PageOut.childrenLeaves : PageOut Node → Nat
+  | .updated .. => 0
+  | .reconstructed _ _ cl _ => cl
+
+/-- the current `children_leaves_counter` of a stack page, `0` when it was not touched yet -/
+def clOf (sp : StackPage Node) : Nat := sp.childrenLeaves.getD 0
+
+/-- `count_leaves` of an output page -/
+def outLeaves (o : PageOut Node) : Nat := countLeaves H o.page
+
 /-- an output page is the page as it was when it was popped: its slots are what the logged store held, and its diff names
 every slot that differs from what the page started from -/
 def OutMatches (ps : PageSet Node) (o : PageOut Node) (log : List (PageId × Store Node)) : Prop :=
-  ∃ P pg d b st, o = .updated P pg d b ∧ (P, st) ∈ log ∧ pg.nodes.length = 126 ∧
-    (∀ q, q ≠ [] → q.length ≤ 256 → specPage q = P → pg.nodes.getD (specIndex q) H.term = st q) ∧
-    ∃ base, BaseOf ps P base ∧ DiffNames H pg.nodes base d
+  ∃ st, (o.pageId, st) ∈ log ∧ o.page.nodes.length = 126 ∧
+    (∀ q, q ≠ [] → q.length ≤ 256 → specPage q = o.pageId → o.page.nodes.getD (specIndex q) H.term = st q) ∧
+    ∃ base, BaseOf ps o.pageId base ∧ DiffNames H o.page.nodes base o.diff
+
+/-- what the simulation knows about the two modes of the walker: the kind of the output pages; for a reconstructor
+(`new_reconstructor`): elision is not inhibited, every page on the stack carries the counters of a page that was created in this
+walk (`0 / 0`), the children counters on the stack never exceed the leaves counted in the pages handed out so far, and the
+pages handed out are, in order, the pages the tree walker logged -/
+structure ReconInv (w : Walker Node) (a : TW Node) : Prop where
+  kinds : ∀ o ∈ w.outputPages, o.isReconstructed = w.reconstruction
+  rc : w.reconstruction = true → w.inhibitElision = false ∧
+    ∀ sp ∈ w.stack, sp.prevChildrenLeaves = some 0 ∧ sp.pageLeaves = some 0
+  acct : w.reconstruction = true → (w.stack.map clOf).sum ≤ (w.outputPages.map (outLeaves H)).sum
+  outIds : w.reconstruction = true → w.outputPages.map PageOut.pageId = a.log.map (·.1)
+
+theorem ReconInv.cast {w w' : Walker Node} {a a' : TW Node} (h : ReconInv H w a)
+    (e1 : w'.outputPages = w.outputPages) (e2 : w'.reconstruction = w.reconstruction)
+    (e3 : w'.inhibitElision = w.inhibitElision) (e4 : w'.stack = w.stack) (e5 : a'.log = a.log) : ReconInv H w' a' := by
+  refine ⟨?_, ?_, ?_, ?_⟩
+  · rw [e1, e2]; exact h.kinds
+  · rw [e2, e3, e4]; exact h.rc
+  · rw [e1, e2, e4]; exact h.acct
+  · rw [e1, e2, e5]; exact h.outIds
 
 structure Sim (ps : PageSet Node) (w : Walker Node) (a : TW Node) : Prop where
   wf : w.position.WF
@@ -75,11 +119,24 @@ structure Sim (ps : PageSet Node) (w : Walker Node) (a : TW Node) : Prop where
   chain : ChainBelow w.parentPage (w.stack.map (·.pageId))
   pages : ∀ sp ∈ w.stack, PageMatches H sp a.store
   counters : ∀ sp ∈ w.stack, CountersOK sp
-  norecon : w.reconstruction = false
+  recon : ReconInv H w a
   cpr : w.childPageRoots.map (fun e => (e.1.path, e.2)) = a.cpr
   outs : ∀ o ∈ w.outputPages, OutMatches H ps o a.log
   nofix : w.preFix = false
   diffs : ∀ sp ∈ w.stack, DiffOK H ps sp
+
+/-- the output pages of a walker that is not a reconstructor are `UpdatedPage`s (the form the update-mode theorems use) -/
+theorem outMatches_updated {ps : PageSet Node} {w : Walker Node} {a : TW Node} (h : Sim H ps w a)
+    (hnr : w.reconstruction = false) (o : PageOut Node) (ho : o ∈ w.outputPages) :
+    ∃ P pg d b st, o = .updated P pg d b ∧ (P, st) ∈ a.log ∧ pg.nodes.length = 126 ∧
+      (∀ q, q ≠ [] → q.length ≤ 256 → specPage q = P → pg.nodes.getD (specIndex q) H.term = st q) ∧
+      ∃ base, BaseOf ps P base ∧ DiffNames H pg.nodes base d := by
+  have hk := h.recon.kinds o ho
+  rw [hnr] at hk
+  obtain ⟨st, h1, h2, h3, h4⟩ := h.outs o ho
+  cases o with
+  | updated P pg d b => exact ⟨P, pg, d, b, st, rfl, h1, h2, h3, h4⟩
+  | reconstructed P pg cl d => simp [PageOut.isReconstructed] at hk
 
 /-! ## slots and paths -/
 
@@ -158,9 +215,27 @@ variable (ps : PageSet Node)
 theorem sim_update_top {w : Walker Node} {a : TW Node} (h : Sim H ps w a) (top : StackPage Node) (rest : List (StackPage Node))
     (hst : w.stack = top :: rest) (top' : StackPage Node) (st' : Store Node)
     (hid : top'.pageId = top.pageId) (hc : CountersOK top') (hdf : DiffOK H ps top')
+    (hctr : top'.prevChildrenLeaves = top.prevChildrenLeaves ∧ top'.pageLeaves = top.pageLeaves ∧
+      top'.childrenLeaves = top.childrenLeaves)
     (hm : PageMatches H top' st') (hrest : ∀ sp ∈ rest, PageMatches H sp st') (hroot : st' [] = a.store []) :
     Sim H ps { w with stack := top' :: rest } { a with store := st' } := by
-  refine ⟨h.wf, h.pos, ?_, ?_, ?_, ?_, ?_, ?_, h.norecon, h.cpr, h.outs, h.nofix, ?_⟩
+  have hrecon : ReconInv H ({ w with stack := top' :: rest } : Walker Node) ({ a with store := st' } : TW Node) := by
+    refine ⟨h.recon.kinds, ?_, ?_, h.recon.outIds⟩
+    · intro hr
+      obtain ⟨h1, h2⟩ := h.recon.rc hr
+      refine ⟨h1, ?_⟩
+      intro sp hsp
+      rcases List.mem_cons.mp hsp with e | hsp'
+      · rw [e, hctr.1, hctr.2.1]; exact h2 top (by rw [hst]; simp)
+      · exact h2 sp (by rw [hst]; exact List.mem_cons_of_mem _ hsp')
+    · intro hr
+      have := h.recon.acct hr
+      rw [hst] at this
+      show ((top' :: rest).map clOf).sum ≤ _
+      simp only [List.map_cons, List.sum_cons] at this ⊢
+      have e : clOf top' = clOf top := by unfold clOf; rw [hctr.2.2]
+      rw [e]; exact this
+  refine ⟨h.wf, h.pos, ?_, ?_, ?_, ?_, ?_, ?_, hrecon, h.cpr, h.outs, h.nofix, ?_⟩
   · show w.root = st' []
     rw [hroot]; exact h.root
   · constructor
@@ -275,6 +350,7 @@ theorem sim_write_top {w : Walker Node} {a : TW Node} (h : Sim H ps w a) (top : 
       simp only at hne
       rw [getD_set_ne _ _ _ _ _ (Ne.symm e)] at hne
       exact hne
+  · exact ⟨rfl, rfl, rfl⟩
   · refine ⟨by simp [hlen], ?_⟩
     intro q hq hql hqp
     simp only at hqp
